@@ -8,6 +8,7 @@ mod checksum;
 mod fsmodel;
 mod path;
 mod crc;
+mod codec;
 mod rng;
 mod segments;
 mod tx;
@@ -44,6 +45,7 @@ fn main() {
                 "udp" => udp::gen(seed, tier, &mut w, &mut stats),
                 "fsmodel" => fsmodel::gen(seed, tier, &mut w, &mut stats),
                 "crc" => crc::gen(seed, tier, &mut w, &mut stats),
+                "codec" => codec::gen(seed, tier, &mut w, &mut stats),
                 _ => panic!("unknown component {comp}"),
             }
             w.flush().unwrap();
@@ -64,6 +66,7 @@ fn main() {
                 "udp" => udp::run(&ops, &mut out, &mut orc),
                 "fsmodel" => fsmodel::run(&ops, &mut out, &mut orc),
                 "crc" => crc::run(&ops, &mut out, &mut orc),
+                "codec" => codec::run(&ops, &mut out, &mut orc),
                 _ => panic!("unknown component {comp}"),
             }
             out.flush().unwrap();
